@@ -209,6 +209,14 @@ func H_C08_big(k, fill int) {
 	c08Compare(in, &menuReader{data: cloneBytes(in), menu: menu}, len(in), 0)
 }
 
+// H_C08_cut(t, _): C01 template t delivered in two reads cut at a solver-chosen
+// position (CRLF documents with runs of blank lines, bare-CR documents), compared
+// with in-memory Parse exactly as H_C08.
+func H_C08_cut(t, _ int) {
+	in := tmplBytes(c01Templates[t])
+	c08Compare(in, &cutReader{data: cloneBytes(in), cut: vconcrete(nondetInt(0, len(in)))}, len(in), 0)
+}
+
 func c08Compare(in []byte, r io.Reader, limit, mode int) {
 	p := NewBlockParser(r)
 	refs := make(ReferenceMap)
